@@ -61,7 +61,9 @@ def source_lists(rep, texts):
     model = common.Model()
     shown = 0
     try:
-        for name, text in texts:
+        # one process, one text after the other: corpus and fixtures first, then at most 600 generated texts (the thorough
+        # tier's 4000 took more than an hour here)
+        for name, text in texts[:700]:
             i = pc.impl_parse(text)
             if i[0] != 'ok':
                 continue
